@@ -219,6 +219,19 @@ CHECKS['C16'] = dict(
         'do not re-label); sessions with an undecodable answer are skipped by the monitor until the next version request; Coq kernel; translator; extraction; gcc.',
    technique='Coq proof (ring refinement to "last n saves", state-unchanged theorems for every suppressed/replayed case, trace induction), differential correspondence, implementation-level monitor',
    design='4/C16')
+CHECKS['C05'] = dict(
+   text='Coq theorems over arbitrary event lists of the server model (datagrams of arbitrary bytes and length, tun packets, sweeps; zlib output bounded by its '
+        'buffer as the only hypothesis): every index, offset, length and counter of every session stays within the bounds of the C buffers (reassembly buffer, '
+        'out-packet, queue, answer cache, query memories, held names) — buffer sizes re-read from the source; every output is within its buffer; parser bounds '
+        '(names <= 255, unpack_data / the ping fingerprint leave room for the NUL); every user index that reaches users[] was range-checked; all loops run on '
+        'sufficient fuel with explicit per-datagram work bounds; a datagram from a sender that fails a session\'s access check leaves that session bit-for-bit '
+        'unchanged, so an established session survives any hostile run; char arithmetic ranges. Tied to iodined.c by per-event correspondence of plain AND '
+        'ASan/UBSan builds against the model on hostile histories, plus a liveness oracle (a provably live session still answers) and raw-dispatch diagnostics.',
+   note='Trusts: ASan/UBSan for C-expression-level undefined behaviour, uninitialised reads, libc and zlib internals; the guard table for in[k] reads is not formalised '
+        '(loosening those guards shows as a model difference); tun packets of exactly 65536 bytes are excluded (stub artefact of the compress2 replacement); '
+        'Coq kernel; translator; extraction; gcc/clang runtime.',
+   technique='Coq proof (state invariant by induction over events, frame theorem for third-party datagrams, fuel adequacy), differential correspondence incl. sanitizer builds, liveness oracle',
+   design='4/C05-C06')
 NOT_YET = {}
 
 def main():
